@@ -16,8 +16,9 @@ RULE = ("case = random small schema with @vtgate suspension points on fields and
         "the driver releases one gate at a time when the loop is quiescent; completion orders are enumerated exhaustively "
         "by DFS over choice prefixes (stateless replay) up to a per-(request,config) cap, then LIFO + random policies. "
         "Oracle: data identical to the reference in every run; C02 error accounting per run; each gate started, released "
-        "and resumed exactly once, none left parked; no task alive after execute returns; "
-        "never stuck. non-trivial = a (request, config) with >= 2 distinct release orders; distinct by (SDL, document, "
+        "and resumed exactly once, none left parked; no user code (resolver, hook) suspended at return or entered "
+        "afterwards; never stuck - incl. one request in four cases with root-level lists of 128 / 130 objects each selecting "
+        "a nested list. non-trivial = a (request, config) with >= 2 distinct release orders; distinct by (SDL, document, "
         "variables, world, faults, config)") % REQS_PER_SCHEMA
 ASSUMPTIONS = ["stdlib asyncio event loop (loop._ready used for quiescence detection)",
                "resolvers are pure functions of (parent identity, field, args)"]
